@@ -273,7 +273,23 @@ theorem C03_failed_frame (s : State) (c : Call) (hf : (step s c).2.rv ≠ CKR.OK
   | create k tpl e =>
     simp only [step, guardInit]; split
     · simp [rOnly]
-    · unfold stepCreate; step_cases <;> simp [rOnly]
+    · unfold stepCreate addObject; step_cases <;> simp [rOnly]
+  | copy k o tpl e =>
+    simp only [step, guardInit]; split
+    · simp [rOnly]
+    · unfold stepCopy addObject; step_cases <;> simp [rOnly]
+  | getAttr k o r ov =>
+    simp only [step, guardInit]; split
+    · simp [rOnly]
+    · unfold stepGetAttr; step_cases <;> simp [rOnly]
+  | setAttr k o tpl e =>
+    simp only [step, guardInit]; split
+    · simp [rOnly]
+    · unfold stepSetAttr; step_cases <;> simp [rOnly]
+  | objSize k o =>
+    simp only [step, guardInit]; split
+    · simp [rOnly]
+    · unfold stepObjSize; step_cases <;> simp [rOnly]
   | destroy k o =>
     simp only [step, guardInit]; split
     · simp [rOnly]
